@@ -616,6 +616,17 @@ func execReflect(toks []string) string {
 		d = "-"
 	}
 	m := diam.NewMessage(280, 0x80, app, 1, 1, p)
+	if pre, _ := kvGet(toks, "pre"); pre == "1" {
+		// the message is not fresh: another value of the same type was marshalled into it and
+		// read back before (Marshal replaces the AVPs; nothing of the earlier value may remain)
+		src0 := rfFamily[ty]()
+		fillValue(NewRNG(seed^0x9e3779b97f4a7c15), reflect.ValueOf(src0).Elem(), 0)
+		guard(func() {
+			if m.Marshal(src0) == nil {
+				_ = m.Unmarshal(rfFamily[ty]())
+			}
+		})
+	}
 	res := fmt.Sprintf("dict=%s sh=%s v=%s ", d, sh, val)
 	var merr error
 	if g := guard(func() { merr = m.Marshal(src) }); g != "" {
@@ -700,7 +711,11 @@ func genReflect(r *RNG, n int, op string, emit func(string)) {
 		if raw[i%len(rfFamily)] {
 			app = 0
 		}
-		emit(fmt.Sprintf("reflect rt ty=%d seed=%d app=%d", i%len(rfFamily), r.U32(), app))
+		line := fmt.Sprintf("reflect rt ty=%d seed=%d app=%d", i%len(rfFamily), r.U32(), app)
+		if r.Chance(30) {
+			line += " pre=1"
+		}
+		emit(line)
 	}
 }
 
